@@ -25,6 +25,21 @@ with the real `BIOGEME.estimate()` / `quick_estimate()` in scratch directories.
     recorded session is replayed through `Estimate.run` (likelihood = table of independent evaluations,
     optimiser = the recorded calls) and its reports and final state compared with the real ones.
 
+Round 3 (model `lean/Model/EstimateFlow.lean`):
+  * `NegativeLikelihood._f/_f_g/_f_g_h` call by call: every call an optimiser makes during every real run is
+    recorded (the point, the entry point of BIOGEME called with its arguments, what it returned, what goes back to
+    the optimiser) and compared bit for bit with `Estimate.negCall` / `Estimate.negFlags`;
+  * sessions of the extended object (`Estimate.frun`): `save_iterations` switched on and off, a saved iteration
+    left by an earlier run (all or some of the names), the file removed, evaluations with derivatives (they rewrite
+    the file when saving is on), `calculate_null_loglikelihood`, `set_random_init_values`, estimations with and
+    without bootstrapping, `quick_estimate`, runs stopped before convergence - the trace of evaluations of every
+    optimiser call is recorded and replayed, and the reports, the formulas' values, the starting values, the content
+    of the file, `bestIteration` and the null log likelihood at the end are compared with the model;
+  * `estimate_catalog` (full and quick, every algorithm name through the TOML file): each results object against
+    the plain model of its configuration built independently, and against `Estimate.estimateCatalog`;
+  * bounds with equal lower and upper value; runs stopped before convergence under every bound configuration
+    and through `quick_estimate`.
+
 The optimisers are external: their convergence is not modelled.  A run that does not report
 convergence but respects the contract is not a violation.
 """
@@ -53,14 +68,25 @@ MANIFEST = dict(
     'every results object returned reports L, g, H, BHHH at its own point whatever happened before (C07.session_reports_consistent, result_consistent_bootstrap), '
     'evaluations leave no trace (session_eval_transparent), write-back after bootstrap/evaluations (session_writeback), a second estimate restarts from the '
     'same values (reestimate_restarts); real sessions are replayed through Estimate.run and every results object is re-read after every later operation and '
-    'compared with independent recomputations.',
+    'compared with independent recomputations. '
+    'Round 3 (Model/EstimateFlow.lean): NegativeLikelihood call by call (neg_call_by_call, neg_call_value: unscaled, whole sample, Hessian only in _f_g_h, never BHHH, negated outputs); '
+    'estimate with a saved iteration (saved_estimate_starts_from_file: the file is applied as change_init_values, the initial likelihood is that of the loaded values, estimates written over them; '
+    'unsaved_estimate_is_base; saved_file_holds_estimates: if x* is at least as good as every evaluated point the file ends holding the estimates; reestimate_saved_starts_from_file_point); '
+    'every report of any sequence of operations of the extended object (saving on/off, file removed, evaluations rewriting the file, null log likelihood) is consistent at its own point and '
+    'satisfies the contract conclusions (flow_reports_consistent, flow_reports_contract); calculate_likelihood never leaves a trace, evaluations with derivatives none when saving is off '
+    '(flow_evaluations_trace; with saving on they do: example); the null log likelihood is the log likelihood of the equal-probability model and is <= 0 (null_loglike_formula); '
+    'estimate_catalog: one consistent report per configuration, for the likelihood of that configuration (catalog_consistent). Tie: every NegativeLikelihood call of every real run, '
+    'recorded sessions with saved iterations replayed through Estimate.frun (file content, bestIteration, null log likelihood included), real estimate_catalog runs against independent plain models and Estimate.estimateCatalog.',
     design='DESIGN.md §5 C07',
     technique='Lean 4 theorems about the estimation wrapper with the optimiser as a parameter under a recorded contract + Mathlib convexity for KKT => global maximum; '
     'differential correspondence and relation monitoring on real estimations',
     note='PARTIAL BY DESIGN: convergence of biogeme_optimization / scipy is not modelled. Clause (d) is decided only as: whenever a run reports convergence by its '
     'gradient criterion, the KKT relation holds on that run with the algorithm\'s own tolerance, and then the theorems give optimality and agreement; the '
     'disagreement of any two runs is checked against the proved first-order bound. A non-converging but contract-respecting optimiser is not a violation. '
-    'quick_estimate does not write the estimates back and does not recompute the initial likelihood (modelled as such). The engine computes L, g, H, BHHH (trusted here, C02).',
+    'quick_estimate does not write the estimates back and does not recompute the initial likelihood (modelled as such). The engine computes L, g, H, BHHH (trusted here, C02). '
+    'Saved iterations: the text format of the file and the write rule are C15\'s subject; here the file is its parsed content and what matters is where the next estimation starts. '
+    'Not covered: scipy stopped before convergence (no iteration limit reaches scipy), check_derivatives / finite-difference Hessian while save_iterations is on (they evaluate at perturbed points), '
+    'recycle=True (pickle files, C16), bootstrapping inside estimate_catalog, panel data.',
 )
 
 TRUSTED = [
@@ -68,6 +94,8 @@ TRUSTED = [
     'the C++ engine evaluates L, gradient, Hessian, BHHH (their correctness is C02/C04); here only that the reported ones are those at the reported point',
     'concavity of the generated likelihoods (linear regression, logit) is a mathematical fact about the generators, not checked by Lean',
     'sessions: the engine is deterministic on one thread (two objects built from the same case give the same value at the same point up to 1e-11 relative)',
+    'saved iterations: the values and gradients at the points of an optimiser\'s trace are the ones the object under test returned (they only decide which evaluation rewrites the file); the text round trip of the file is C15',
+    'estimate_catalog: the configuration identifier names the chosen expression of each Catalog (C06); the plain model of a configuration is built by the harness from the same abstract case',
 ]
 ASSUMPTIONS = [
     'OptContract for the external optimiser (monitored on every real run)',
@@ -77,9 +105,10 @@ ASSUMPTIONS = [
 RULE = (
     'one case = one real estimation (problem x bounds x algorithm x start, including bounds exactly 0 and runs that stop before convergence), '
     'non-trivial = at least 2 free parameters or an active/one-sided bound or a fixed parameter; or one session = one sequence of public operations '
-    'on one BIOGEME object starting with an estimation (non-trivial = at least one later operation)'
+    'on one BIOGEME object starting with an estimation (non-trivial = at least one later operation), possibly with save_iterations, a saved iteration present, null log likelihood, '
+    'random starting values; or one estimate_catalog call (always non-trivial: at least two configurations)'
 )
-TOL = 'sign flip, option values: exact; write-back: exact as numbers in the oracle (+0.0 = -0.0), bit for bit against the model (which contains the guard of Beta.change_init_values); recomputed L/g/H/BHHH: rel 1e-9; bounds: 1e-10; KKT: the algorithm\'s tolerance (x1.001); first-order inequality: 1e-9*(1+|L|) + 1e-9*|g.dx|; sessions: L rel 1e-11, g/H/BHHH 1e-9*max(1,|.|max) against independent objects, estimates / starting values / bootstrap rows exact'
+TOL = 'sign flip, option values: exact; write-back: exact as numbers in the oracle (+0.0 = -0.0), bit for bit against the model (which contains the guard of Beta.change_init_values); recomputed L/g/H/BHHH: rel 1e-9; bounds: 1e-10; KKT: the algorithm\'s tolerance (x1.001); first-order inequality: 1e-9*(1+|L|) + 1e-9*|g.dx|; sessions: L rel 1e-11, g/H/BHHH 1e-9*max(1,|.|max) against independent objects, estimates / starting values / bootstrap rows exact; NegativeLikelihood calls: bit for bit; iterations file: names and values bit for bit, bestIteration rel 1e-11, null log likelihood rel 1e-12; estimate_catalog: as for a run'
 
 NAME_POOL = ['b10', 'b2', 'alpha', 'zeta', 'B_TIME', 'asc', 'mu', 'Z']
 TOML = """[Specification]
@@ -261,6 +290,113 @@ class Spy:
         return False
 
 
+
+class NegSpy:
+    """records every call of `NegativeLikelihood._f/_f_g/_f_g_h` made by an optimiser: the point, the call
+    made on the BIOGEME object (entry point, arguments) with what it returned, and what goes back to the optimiser"""
+
+    KINDS = {'_f': 'f', '_f_g': 'fg', '_f_g_h': 'fgh'}
+
+    def __init__(self, limit=40):
+        from biogeme.negative_likelihood import NegativeLikelihood
+
+        self.NL = NegativeLikelihood
+        self.saved = {m: getattr(NegativeLikelihood, m) for m in self.KINDS}
+        self.calls, self.limit, self.total = [], limit, 0
+
+    def __enter__(self):
+        spy = self
+        for meth, kind in self.KINDS.items():
+            def wrapped(nl, _orig=self.saved[meth], _kind=kind):
+                spy.total += 1
+                if len(spy.calls) >= spy.limit:
+                    return _orig(nl)
+                rec = {'kind': _kind, 'x': [float(v) for v in nl.x], 'inner': []}
+                like, liked = nl.like, nl.like_derivatives
+
+                def like_spy(*a, **kw):
+                    o = like(*a, **kw)
+                    rec['inner'].append({'fn': 'like', 'x': [float(v) for v in a[0]] if a else None, 'nargs': len(a), 'kw': {k: kw[k] for k in kw}, 'f': float(o)})
+                    return o
+
+                def liked_spy(*a, **kw):
+                    o = liked(*a, **kw)
+                    rec['inner'].append({'fn': 'like_derivatives', 'x': [float(v) for v in a[0]] if a else None, 'nargs': len(a), 'kw': {k: kw[k] for k in kw},
+                                         'f': float(o.function), 'g': [float(v) for v in o.gradient],
+                                         'h': np.asarray(o.hessian, dtype=float).tolist() if kw.get('hessian') else None})
+                    return o
+
+                nl.like, nl.like_derivatives = like_spy, liked_spy
+                try:
+                    r = _orig(nl)
+                finally:
+                    nl.like, nl.like_derivatives = like, liked
+                if _kind == 'f':
+                    rec['out'] = {'f': float(r), 'g': None, 'h': None}
+                else:
+                    rec['out'] = {'f': float(r.function), 'g': None if r.gradient is None else [float(v) for v in r.gradient],
+                                  'h': None if r.hessian is None else np.asarray(r.hessian, dtype=float).tolist()}
+                spy.calls.append(rec)
+                return r
+            setattr(self.NL, meth, wrapped)
+        return self
+
+    def __exit__(self, *exc):
+        for m, fn in self.saved.items():
+            setattr(self.NL, m, fn)
+        return False
+
+
+def oracle_negcalls(calls):
+    """the sign flip and derivative pass-through, call by call, from the statement's first mechanism (numpy only):
+    what goes back to the optimiser is minus what the BIOGEME object returned at the same point"""
+    for i, c in enumerate(calls):
+        if len(c['inner']) != 1:
+            return (f'call {i} (_{c["kind"]}): {len(c["inner"])} calls on the BIOGEME object instead of one', len(c['inner']), 1)
+        inn, o = c['inner'][0], c['out']
+        if inn['x'] is None or [f2b(v) for v in inn['x']] != [f2b(v) for v in c['x']]:
+            return (f'call {i} (_{c["kind"]}): the likelihood is not evaluated at the point set by the optimiser', inn['x'], c['x'])
+        neg = lambda v: None if v is None else (-np.asarray(v, dtype=float)).tolist()  # noqa: E731
+        want = {'f': -inn['f'], 'g': neg(inn.get('g')) if c['kind'] != 'f' else None, 'h': neg(inn.get('h')) if c['kind'] == 'fgh' else None}
+        got = {'f': o['f'], 'g': o['g'], 'h': o['h']}
+        if bits_any(want) != bits_any(got):
+            return (f'call {i} (_{c["kind"]}): what goes back to the optimiser is not minus the likelihood (value, gradient, Hessian) at that point', got, want)
+    return None
+
+
+def bits_any(v):
+    if v is None:
+        return None
+    if isinstance(v, dict):
+        return {k: bits_any(w) for k, w in v.items()}
+    if isinstance(v, (list, tuple)):
+        return [bits_any(w) for w in v]
+    return f2b(float(v))
+
+
+def negcalls_request(calls):
+    return {'op': 'negcalls', 'calls': [{'kind': c['kind'], 'f': f2b(c['inner'][0]['f']), 'g': [f2b(v) for v in (c['inner'][0].get('g') or [])],
+                                         'h': [[f2b(v) for v in r] for r in (c['inner'][0].get('h') or [])]} for c in calls]}
+
+
+def compare_negcalls(res, case, calls, ans):
+    W = 'NegativeLikelihood'
+    if 'error' in ans:
+        res.diverge('driver error (negcalls)', case, ans['error'], None, where=W)
+        return
+    for i, (c, m) in enumerate(zip(calls, ans['calls'])):
+        inn = c['inner'][0]
+        kw = inn['kw']
+        real_flags = {'derivatives': inn['fn'] == 'like_derivatives', 'scaled': kw.get('scaled', '<missing>'),
+                      'hessian': kw.get('hessian', False), 'bhhh': kw.get('bhhh', False), 'batch_none': kw.get('batch', None) is None}
+        if m['flags'] != real_flags or inn['nargs'] != 1:
+            res.diverge(f'call {i} (_{c["kind"]}): entry point and flags of the call on the BIOGEME object vs Estimate.negFlags', case, m['flags'], [real_flags, inn['nargs']], where=W)
+            return
+        model = {'f': m['f'], 'g': m['g'], 'h': m['h']}
+        if model != bits_any(c['out']):
+            res.diverge(f'call {i} (_{c["kind"]}): what goes back to the optimiser vs Estimate.negCall', case, model, bits_any(c['out']), where=W)
+            return
+
 # --------------------------------------------------------------------------- one real run
 
 
@@ -295,7 +431,7 @@ def _real_run(out, problem, x0, bounds, algo, cfg, tag, quick):
         out['before'].append({'name': fixed_beta.name, 'value': float(fixed_beta.initValue), 'fixed': True})
     out['L0'] = float(B.calculate_likelihood(out['x0'], scaled=False))
     out['complex'] = bool(B.is_model_complex())
-    with Spy() as spy:
+    with Spy() as spy, NegSpy() as negspy:
         try:
             r = B.quick_estimate() if quick else B.estimate()
         except Exception as e:  # noqa: BLE001
@@ -305,6 +441,8 @@ def _real_run(out, problem, x0, bounds, algo, cfg, tag, quick):
     out['algo_parameters'] = copy.deepcopy(spy.wrapper_calls[0]['parameters']) if spy.wrapper_calls else '<no call>'
     out['wrapper'] = spy.wrapper_calls
     out['external'] = spy.external_calls
+    out['negcalls'] = negspy.calls
+    out['negcalls_total'] = negspy.total
     out['function_parameters'] = {k: float(v) for k, v in (B.function_parameters or {}).items()}
     d = r.data
     xs = [float(v) for v in d.betaValues]
@@ -354,6 +492,14 @@ def close_vec(a, b, rel=1e-9):
     A, Bv = np.asarray(a, dtype=float), np.asarray(b, dtype=float)
     if A.shape != Bv.shape:
         return False
+    nanA, nanB = np.isnan(A), np.isnan(Bv)
+    if nanA.any() or nanB.any():
+        # the same entries undefined on both sides, the others compared
+        if not np.array_equal(nanA, nanB):
+            return False
+        A, Bv = np.where(nanA, 0.0, A), np.where(nanB, 0.0, Bv)
+    if np.isinf(A).any() or np.isinf(Bv).any():
+        return bool(np.array_equal(A, Bv))
     s = max(1.0, float(np.max(np.abs(A))) if A.size else 1.0)
     return bool(np.all(np.abs(A - Bv) <= rel * s))
 
@@ -411,8 +557,11 @@ def oracle(case, out):
         if tols is not None:
             aware = algo in BOUND_AWARE
             for i, (x, gi, (lb, ub)) in enumerate(zip(xs, g, lbub)):
-                up_blocked = aware and ub is not None and x >= ub - 1e-9
-                down_blocked = aware and lb is not None and x <= lb + 1e-9
+                # "blocked by an active bound", for a convergence test with a tolerance: the room left towards the bound is
+                # below the tolerance the algorithm itself applies (its criterion is the *projected* gradient
+                # project(x + g) - x, i.e. min(|g_i|, room_i) <= tol_i; with tol -> 0 this is exact KKT)
+                up_blocked = aware and ub is not None and x >= ub - max(1e-9, tols[i])
+                down_blocked = aware and lb is not None and x <= lb + max(1e-9, tols[i])
                 if (gi > tols[i] and not up_blocked) or (gi < -tols[i] and not down_blocked):
                     bad.append((f'convergence reported but the gradient does not vanish in a free direction (parameter {order[i]})', gi, f'|g| <= {tols[i]:.3g}', 'BIOGEME.optimize'))
     # (e) starting values := estimates, fixed parameters untouched
@@ -433,6 +582,9 @@ def oracle(case, out):
             and ng['fg_g'] == [-v for v in ng['g']] and ng['fgh_g'] == [-v for v in ng['g']]
             and ng['fgh_h'] == [[-v for v in r] for r in ng['H']]):
         bad.append(('the function handed to the optimiser is not minus the likelihood (value, gradient, Hessian)', ng, 'negated', 'NegativeLikelihood'))
+    nc = oracle_negcalls(out.get('negcalls') or [])
+    if nc:
+        bad.append((nc[0] + ' (during the estimation)', nc[1], nc[2], 'NegativeLikelihood'))
     return bad
 
 
@@ -455,6 +607,8 @@ def oracle_pairs(group):
         for b_case, b in group:
             if a is b or 'exc' in a or 'exc' in b:
                 continue
+            if not all(math.isfinite(v) for v in [a['logLike'], b['logLike']] + list(a['xstar']) + list(b['xstar']) + list(a['re']['g'])):
+                continue   # an overflow of the engine far away: the inequality cannot be evaluated in floating point
             lbub = [a_case['bounds'][n] for n in a['order']]
             # both points must be feasible for the problem whose concavity is used (box or whole space)
             x, y = np.array(a['xstar']), np.array(b['xstar'])
@@ -647,7 +801,7 @@ def requests_for(case, out):
         'op': 'run', 'algorithm': case['algo'], 'bounds': [[None if b is None else f2b(b) for b in p] for p in lbub], 'x0': [f2b(v) for v in out['x0']],
         'L0': f2b(out['L0']), 'xstar': [f2b(v) for v in out['xstar']], 'logLike': f2b(out['logLike']),
         'initLogLike': None if out['initLogLike'] is None else f2b(out['initLogLike']), 'L_re': f2b(out['re']['L']),
-        'g_re': [f2b(v) for v in out['re']['g']], 'tol': f2b(tol), 'slack': f2b(1e-9), 'typf': f2b(max(abs(out['L0']), 1.0)),
+        'g_re': [f2b(v) for v in out['re']['g']], 'tol': f2b(tol), 'slack': f2b(max(1e-9, tol) if tols else 1e-9), 'typf': f2b(max(abs(out['L0']), 1.0)),
         'reported_flat': [] if case['quick'] or out['g'] is None else [f2b(v) for v in flat3(out['g'], out['H'], out['bhhh'])],
         'recomputed_flat': [] if case['quick'] or out['g'] is None else [f2b(v) for v in flat3(out['re']['g'], out['re']['H'], out['re']['bhhh'])],
     }
@@ -655,7 +809,8 @@ def requests_for(case, out):
           'params': [{'name': p['name'], 'value': f2b(p['value']), 'fixed': p['fixed']} for p in out['before']]}
     ng = out['neg']
     neg = {'op': 'negflip', 'f': f2b(ng['L']), 'g': [f2b(v) for v in ng['g']], 'h': [[f2b(v) for v in r] for r in ng['H']]}
-    return plumbing, run, wb, neg
+    calls = [c for c in out.get('negcalls') or [] if len(c['inner']) == 1]
+    return plumbing, run, wb, neg, negcalls_request(calls)
 
 
 # --------------------------------------------------------------------------- the check
@@ -670,6 +825,13 @@ def reference_optimum(problem):
     B.optimization_algorithm = 'simple_bounds'
     r = B.quick_estimate()
     return dict(zip(r.data.betaNames, [float(v) for v in r.data.betaValues]))
+
+
+def estimable(ref):
+    """the statement is about estimable models: a generated data set that is separable (logit) has no finite maximum
+    likelihood estimate - the reference optimiser then wanders off (|estimate| beyond any sensible scale for data
+    of unit scale and true parameters in [-1.5, 1.5]) and the engine overflows; such a problem is not a case"""
+    return all(math.isfinite(v) and abs(v) <= 25.0 for v in ref.values())
 
 
 def bound_configs(rng, problem, ref):
@@ -702,6 +864,18 @@ def bound_configs(rng, problem, ref):
         else:
             zero[n] = (z, rng.choice([None, round(3.0 + abs(ref[n]), 1)]))
     cfgs['zero'] = zero
+    # equal lower and upper bound: the parameter is pinned (away from the free optimum), the others are free or one-sided
+    eq = {n: (None, None) for n in names}
+    k = rng.choice(names)
+    pin = float(round(ref[k] + rng.choice([-0.4, 0.3, 0.75]), 2))
+    # (a model of which *every* free parameter is pinned has nothing to estimate - scipy's wrapper raises
+    # AttributeError 'nit' there, scipy returning early without iteration count; not an estimable model: with a
+    # single parameter the box is only very narrow)
+    eq[k] = (pin, pin) if len(names) >= 2 else (pin, pin + 0.015625)
+    for n in names:
+        if n != k and rng.random() < 0.3:
+            eq[n] = (round(ref[n] + 0.2, 2), None)
+    cfgs['equal'] = eq
     return cfgs
 
 
@@ -714,6 +888,8 @@ def start_point(rng, problem, bounds, kind):
             v = lb + (0.0 if rng.random() < 0.3 else 0.125)
         if ub is not None and v > ub:
             v = ub - (0.0 if rng.random() < 0.3 else 0.125)
+        if lb is not None and ub is not None:
+            v = min(max(v, lb), ub)   # narrow or degenerate boxes: the start stays inside
         x0[n] = float(v)
     return x0
 
@@ -753,13 +929,17 @@ def _check_one(ctx, res, case, tagc, group=None):
         return out
     if out['converged']:
         res.tally('converged')
+    res.distribution['negative_likelihood_calls_compared'] = res.distribution.get('negative_likelihood_calls_compared', 0) + len(out.get('negcalls') or [])
+    for c in out.get('negcalls') or []:
+        res.tally(f'neg_call=_{c["kind"]}')
     order = out['order']
     if any((case['bounds'][n][0] is not None and abs(x - case['bounds'][n][0]) < 1e-7) or (case['bounds'][n][1] is not None and abs(x - case['bounds'][n][1]) < 1e-7)
            for n, x in zip(order, out['xstar'])):
         res.tally('active_bound_at_solution')
     reqs = requests_for(case, out)
     def cb(ans, case=case, out=out):
-        for fn, args in ((compare_plumbing, (ans[0],)), (compare_run, (ans[1], ans[2], ans[3]))):
+        calls = [c for c in out.get('negcalls') or [] if len(c['inner']) == 1]
+        for fn, args in ((compare_plumbing, (ans[0],)), (compare_run, (ans[1], ans[2], ans[3])), (lambda r, c, o, a: compare_negcalls(r, c, calls, a), (ans[4],))):
             try:
                 fn(res, slim(case), out, *args)
             except Exception as e:  # noqa: BLE001
@@ -793,6 +973,9 @@ def check_pairs(ctx, res, group):
         for ca, a in runs:
             for cb, b in runs:
                 if a is b:
+                    continue
+                if not all(math.isfinite(v) for v in [a['logLike'], b['logLike']] + list(a['xstar']) + list(b['xstar']) + list(a['re']['g'])):
+                    res.tally('pair_with_non_finite_values_skipped')
                     continue
                 reqs.append({'op': 'pair', 'lx': f2b(a['logLike']), 'x': [f2b(v) for v in a['xstar']], 'g': [f2b(v) for v in a['re']['g']],
                              'ly': f2b(b['logLike']), 'y': [f2b(v) for v in b['xstar']]})
@@ -869,22 +1052,91 @@ def gen_ops(rng, problem, bounds, n_ops):
     return ops
 
 
+# the algorithm call in progress (evaluations with derivatives made during it are its trace)
+TRACE = {'current': None}
+
+
+def install_eval_spy(B, outside):
+    """every call of `calculate_likelihood_and_derivatives` on this object: point, value and gradient (unscaled;
+    None when the caller asked for scaled values) - appended to the trace of the algorithm call in progress, or
+    to `outside` (the final evaluation of estimate, the user's own evaluations)"""
+    orig = B.calculate_likelihood_and_derivatives
+
+    def spy(x, *a, **kw):
+        o = orig(x, *a, **kw)
+        scaled = kw['scaled'] if 'scaled' in kw else (a[0] if a else None)
+        rec = {'x': [float(v) for v in x], 'scaled': bool(scaled),
+               'f': None if scaled else float(o.function), 'g': None if scaled else [float(v) for v in o.gradient]}
+        (TRACE['current']['evals'] if TRACE.get('current') is not None else outside).append(rec)
+        return o
+
+    B.calculate_likelihood_and_derivatives = spy
+
+
+def read_iter_file(B):
+    """the content of the iterations file of this object as `_load_saved_iteration` reads it; None without file"""
+    import os
+
+    fn = f'__{B.modelName}.iter'
+    if not os.path.exists(fn):
+        return None
+    vals = []
+    with open(fn, encoding='utf-8') as fp:
+        for line in fp:
+            ell = line.rsplit('=', 1)
+            vals.append([ell[0].strip(), float(ell[1])])
+    return vals
+
+
+def null_rows(problem, spec):
+    """values of the availabilities of `calculate_null_loglikelihood` row by row (numpy side of the case)"""
+    rows = []
+    for r in problem['rows']:
+        row = []
+        for a in spec:
+            if a[0] == 'const':
+                row.append(1.0)
+            elif a[0] == 'pos':
+                row.append(1.0 if r[a[1]] > 0 else 0.0)
+            else:
+                row.append(1.0 if r[a[1]] < 0 else 0.0)
+        rows.append(row)
+    return rows
+
+
+def null_avail(spec):
+    from biogeme.expressions import Variable
+
+    av = {}
+    for i, a in enumerate(spec):
+        av[i + 1] = 1 if a[0] == 'const' else (Variable(f'X{a[1]}') > 0 if a[0] == 'pos' else Variable(f'X{a[1]}') < 0)
+    return av
+
+
 class OptRecorder:
     """records, for every call of an entry of `optimization.algorithms`, where it started and what it returned"""
 
-    def __init__(self):
+    def __init__(self, snapshot=None):
         import biogeme.optimization as opt
 
         self.opt = opt
         self.calls = []
         self.saved = dict(opt.algorithms)
+        self.snapshot = snapshot
 
     def __enter__(self):
         for name, fn in self.saved.items():
             def wrapped(fct, init_betas, bounds, variable_names, parameters=None, _fn=fn, _name=name):
-                start = [float(v) for v in init_betas]
-                out = _fn(fct, init_betas, bounds, variable_names, parameters)
-                self.calls.append({'entry': _name, 'x0': start, 'xstar': [float(v) for v in out[0]], 'converged': bool(out[2])})
+                cur = {'entry': _name, 'x0': [float(v) for v in init_betas], 'evals': []}
+                if self.snapshot is not None:
+                    cur['params_at_call'] = self.snapshot()
+                prev, TRACE['current'] = TRACE.get('current'), cur
+                try:
+                    out = _fn(fct, init_betas, bounds, variable_names, parameters)
+                finally:
+                    TRACE['current'] = prev
+                cur.update({'xstar': [float(v) for v in out[0]], 'converged': bool(out[2])})
+                self.calls.append(cur)
                 return out
             self.opt.algorithms[name] = wrapped
         return self
@@ -906,6 +1158,7 @@ def read_report(r):
         'bhhh': None if d.bhhh is None else np.asarray(d.bhhh, dtype=float).tolist(),
         'converged': bool(d.convergence),
         'bootstrap': None if d.bootstrap is None else np.asarray(d.bootstrap, dtype=float).tolist(),
+        'nullLogLike': None if d.nullLogLike is None else float(d.nullLogLike),
     }
 
 
@@ -951,8 +1204,18 @@ def _params_now(betas, fixed_beta):
 def _run_session(out, case, tag):
     problem, bounds = case['problem'], case['bounds']
     np.random.seed(case['np_seed'])
+    flow = bool(case.get('flow'))
+    if flow and case.get('file0') is not None:
+        # a saved iteration left by an earlier run, in the format the code writes
+        with open(f'__{tag}.iter', 'w', encoding='utf-8') as fp:
+            for k, v in case['file0']:
+                print(f'{k} = {v}', file=fp)
     B, betas, fixed_beta = build(problem, case['x0'], bounds, tag)
     apply_cfg(B, case['algo'], case['cfg'])
+    out['outside_evals'] = []
+    if flow:
+        B.save_iterations = bool(case.get('save'))
+        install_eval_spy(B, out['outside_evals'])
     order = list(B.id_manager.free_betas.names)
     refs = References(case, tag)
     out.update({'order': order, 'x0': [float(v) for v in B.id_manager.free_betas_values], 'before': _params_now(betas, fixed_beta),
@@ -971,6 +1234,8 @@ def _run_session(out, case, tag):
         for k, r in enumerate(live):
             out['reports'][k]['reads'].append({'after_step': step_index, **read_report(r)})
         out['steps'][step_index]['params'] = _params_now(betas, fixed_beta)
+        if flow:
+            out['steps'][step_index]['file'] = read_iter_file(B)
 
     def do_estimate(step_index, boot, quick):
         B.bootstrap_samples = boot if boot else 2
@@ -1023,6 +1288,18 @@ def _run_session(out, case, tag):
             st['x'] = [float(v) for v in B.id_manager.free_betas_values]
         elif kind == 'change':
             B.change_init_values({k: float(v) for k, v in op['vals'].items()})
+        elif kind == 'random_init':
+            B.set_random_init_values(default_bound=float(op['bound']))
+            st['vals'] = dict(zip(order, [float(v) for v in B.id_manager.free_betas_values]))
+        elif kind == 'setSave':
+            B.save_iterations = bool(op['value'])
+        elif kind == 'removeFile':
+            import os
+
+            if os.path.exists(f'__{tag}.iter'):
+                os.remove(f'__{tag}.iter')
+        elif kind == 'nullLL':
+            st['got'] = {'L': float(B.calculate_null_loglikelihood(null_avail(op['spec'])))}
         elif kind == 'report':
             r = live[-1]
             try:
@@ -1038,7 +1315,9 @@ def _run_session(out, case, tag):
     # the object itself, at the end
     out['state'] = {'params': _params_now(betas, fixed_beta), 'idValues': [float(v) for v in B.id_manager.free_betas_values],
                     'initLogLike': None if B.initLogLike is None else float(B.initLogLike),
-                    'bootstrap': None if B.bootstrap_results is None else np.asarray(B.bootstrap_results, dtype=float).tolist()}
+                    'bootstrap': None if B.bootstrap_results is None else np.asarray(B.bootstrap_results, dtype=float).tolist(),
+                    'file': read_iter_file(B) if flow else None, 'best': None if B.bestIteration is None else float(B.bestIteration),
+                    'nullLL': None if B.nullLogLike is None else float(B.nullLogLike), 'save': bool(B.save_iterations)}
     # the likelihood recomputed at the last estimates by the object that estimated, after everything
     xs = [float(v) for v in live[-1].data.betaValues]
     re = B.calculate_likelihood_and_derivatives(np.array(xs), scaled=False, hessian=True, bhhh=True)
@@ -1111,6 +1390,12 @@ def oracle_session(case, out):
             user_values = {}
         elif kind == 'change':
             user_values.update({k: float(v) for k, v in st['op']['vals'].items()})
+        elif kind == 'random_init':
+            user_values.update(st.get('vals') or {})
+            for n, (lb, ub) in zip(order, lbub):
+                v, bd = (st.get('vals') or {}).get(n), float(st['op']['bound'])
+                if v is None or not ((-bd if lb is None else lb) <= v <= (bd if ub is None else ub)):
+                    bad.append((f'set_random_init_values: the value drawn for {n} at {describe_step(out, i)} is outside its bounds', v, [lb, ub], 'BIOGEME.set_random_init_values'))
         for p in st['params']:
             if p['name'] in told:
                 continue
@@ -1255,6 +1540,374 @@ def compare_session(res, case, out, ans):
         res.diverge('bootstrap_results of the object at the end of the session vs Estimate.run', case, st['bootstrap'], bits_mat(real['bootstrap']), where=W)
 
 
+
+# --------------------------------------------------------------------------- sessions of the extended object (Estimate.frun)
+#
+# save_iterations switched on/off, a saved iteration left by an earlier run, the file removed, evaluations with
+# derivatives (which rewrite the file), calculate_null_loglikelihood, set_random_init_values, bootstrapping.
+
+
+def gen_flow_ops(rng, problem, bounds, n_ops):
+    ops = []
+    for _ in range(n_ops):
+        kind = rng.choice(['eval', 'eval', 'like', 'init', 'estimate', 'estimate', 'estimate_boot', 'quick', 'change', 'setSave', 'setSave', 'removeFile', 'nullLL', 'random_init'])
+        if kind == 'eval':
+            hess, bh = rng.choice(EVAL_FLAGS)
+            at = 'estimates' if rng.random() < 0.25 else gen_point(rng, problem, bounds)
+            ops.append({'op': 'eval', 'at': at, 'scaled': rng.random() < 0.3, 'hessian': hess, 'bhhh': bh})
+        elif kind == 'like':
+            ops.append({'op': 'like', 'at': gen_point(rng, problem, bounds)})
+        elif kind == 'estimate_boot':
+            ops.append({'op': 'estimate', 'boot': 2})
+        elif kind == 'estimate':
+            ops.append({'op': 'estimate', 'boot': 0})
+        elif kind == 'change':
+            pt = gen_point(rng, problem, bounds)
+            keys = rng.sample(problem['names'], rng.randint(1, len(problem['names'])))
+            ops.append({'op': 'change', 'vals': {k: pt[k] for k in keys}})
+            ops.append({'op': rng.choice(['estimate', 'quick']), 'boot': 0})
+        elif kind == 'setSave':
+            ops.append({'op': 'setSave', 'value': rng.random() < 0.7})
+            ops.append({'op': 'estimate', 'boot': 0})
+        elif kind == 'nullLL':
+            K = problem['K']
+            spec = [['const']] + [[rng.choice(['pos', 'neg']), rng.randrange(K)] for _ in range(rng.randint(1, 3))]
+            rng.shuffle(spec)
+            ops.append({'op': 'nullLL', 'spec': spec})
+            ops.append({'op': rng.choice(['estimate', 'quick']), 'boot': 0})
+        elif kind == 'random_init':
+            # default_bound beyond every declared bound: with a bound b of which |b| > default_bound the interval
+            # (-default_bound, b) is reversed and numpy draws outside the bounds - a misuse, not an estimation
+            big = max([1.0] + [abs(b) for pr in bounds.values() for b in pr if b is not None])
+            ops.append({'op': 'random_init', 'bound': float(math.ceil(big) + rng.choice([0, 1]))})
+            ops.append({'op': 'estimate', 'boot': 0})
+        else:
+            ops.append({'op': kind})
+    return ops
+
+
+def gen_flow_session(rng, problem, configs, algo):
+    bname = rng.choice(list(configs.keys()))
+    bounds = configs[bname]
+    x0 = start_point(rng, problem, bounds, rng.choice(['zero', 'rand']))
+    file0 = None
+    if rng.random() < 0.5:
+        # a saved iteration of an earlier run: all the free names, or some of them, in any order
+        pt = gen_point(rng, problem, bounds)
+        keys = list(problem['names']) if rng.random() < 0.6 else rng.sample(problem['names'], rng.randint(1, len(problem['names'])))
+        rng.shuffle(keys)
+        file0 = [[k, pt[k]] for k in keys]
+    cfg = gen_cfg(rng)
+    if rng.random() < 0.3:
+        cfg['max_iterations'] = rng.choice([1, 2, 3])   # stops before convergence
+    return {'kind': 'session', 'flow': True, 'problem': problem, 'x0': x0, 'bounds': bounds, 'bcfg': bname, 'algo': algo, 'cfg': cfg,
+            'boot': rng.choice([0, 0, 0, 2]), 'save': rng.random() < 0.75, 'file0': file0,
+            'ops': gen_flow_ops(rng, problem, bounds, rng.randint(1, 3)), 'np_seed': rng.randint(0, 2 ** 31 - 1)}
+
+
+def flow_request(case, out):
+    """the recorded session for `Estimate.frun`; None when the recorded optimiser is not a function of (objective, start)"""
+    refs = out['refs']
+    order = out['order']
+    seen = {}
+    for c in out['opt_calls']:
+        k = (c['tag'], key_of(c['x0']))
+        v = (key_of(c['xstar']), c['converged'], tuple(key_of(e['x']) for e in c['evals']))
+        if seen.setdefault(k, v) != v:
+            return None
+    # tables of evaluations: per objective (0 = the data of the database, k = k-th bootstrap sample of the session)
+    tables = {}
+
+    def put(tag, x, f, g, h=None, b=None):
+        row = tables.setdefault(tag, {}).setdefault(key_of(x), {'x': [f2b(v) for v in x], 'f': f2b(f), 'g': [f2b(v) for v in g], 'h': [], 'bhhh': []})
+        if h is not None and not row['h']:
+            row['h'], row['bhhh'] = [[f2b(v) for v in r] for r in h], [[f2b(v) for v in r] for r in b]
+
+    for c in out['opt_calls']:
+        for e in c['evals']:
+            put(c['tag'], e['x'], e['f'], e['g'])
+    for e in out['outside_evals']:
+        if e['f'] is not None:
+            put(0, e['x'], e['f'], e['g'])
+    points, ops = [out['x0']], []
+    for i, st in enumerate(out['steps']):
+        op = st['op']
+        kind = op['op']
+        if kind in ('estimate', 'quick'):
+            rep = [r for r in out['reports'] if r['step'] == i][0]
+            points += [rep['started_from'], rep['reads'][0]['x']]
+            ops.append({'op': 'quick'} if kind == 'quick' else {'op': 'estimate', 'boot': rep['boot_tags'] if rep['boot'] else None})
+        elif kind == 'eval':
+            points.append(st['x'])
+            ops.append({'op': 'evalD', 'x': [f2b(v) for v in st['x']]})
+        elif kind == 'like':
+            ops.append({'op': 'like', 'x': [f2b(v) for v in st['x']]})
+        elif kind == 'init':
+            points.append(st['x'])
+            ops.append({'op': 'init'})
+        elif kind == 'change':
+            ops.append({'op': 'change', 'vals': [[k, f2b(float(v))] for k, v in op['vals'].items()]})
+        elif kind == 'random_init':
+            ops.append({'op': 'change', 'vals': [[k, f2b(float(v))] for k, v in st['vals'].items()]})
+        elif kind == 'setSave':
+            ops.append({'op': 'setSave', 'value': bool(op['value'])})
+        elif kind == 'removeFile':
+            ops.append({'op': 'removeFile'})
+        elif kind == 'nullLL':
+            ops.append({'op': 'nullLL', 'rows': [[f2b(v) for v in r] for r in null_rows(case['problem'], op['spec'])]})
+        else:
+            return None
+    for x in points:
+        r = refs.at(x)
+        put(0, x, r['L'], r['g'], r['H'], r['bhhh'])
+    return {
+        'op': 'flow', 'names': order, 'params': [{'name': p['name'], 'value': f2b(p['value']), 'fixed': p['fixed']} for p in out['before']],
+        'idValues': [f2b(v) for v in out['x0']], 'bounds': [[None if b is None else f2b(float(b)) for b in case['bounds'][n]] for n in order],
+        'evals': list(tables.get(0, {}).values()),
+        'boot_tables': [{'tag': t, 'evals': list(rows.values())} for t, rows in tables.items() if t != 0],
+        'opt': [{'tag': c['tag'], 'x0': [f2b(v) for v in c['x0']], 'xstar': [f2b(v) for v in c['xstar']], 'converged': c['converged'],
+                 'evals': [[f2b(v) for v in e['x']] for e in c['evals']]} for c in out['opt_calls']],
+        'ops': ops, 'save': bool(case.get('save')),
+        'file': None if case.get('file0') is None else [[k, f2b(float(v))] for k, v in case['file0']],
+    }
+
+
+def compare_flow(res, case, out, ans):
+    W = 'BIOGEME (sequence of operations, saved iterations)'
+    compare_session(res, case, out, ans)
+    if 'error' in ans or len(ans['reports']) != len(out['reports']):
+        return
+    for k, (m, rep) in enumerate(zip(ans['reports'], out['reports'])):
+        got = rep['reads'][0].get('nullLogLike') if rep['reads'] else None
+        mv = None if m['nullLL'] is None else b2f(m['nullLL'])
+        if (mv is None) != (got is None) or (mv is not None and not core.close(mv, got, 1e-12)):
+            res.diverge(f'results object {k}: null log likelihood reported vs Estimate.frun', case, mv, got, where='RawResults')
+    for i, stp in enumerate(out['steps']):
+        if stp['op']['op'] == 'nullLL':
+            want = -float(sum(math.log(sum(r)) for r in null_rows(case['problem'], stp['op']['spec'])))
+            if not core.close(stp['got']['L'], want, 1e-12):
+                res.diverge(f'calculate_null_loglikelihood at step {i} vs the log likelihood of the equal-probability model (C07.null_loglike_formula)', case, want, stp['got']['L'],
+                            where='BIOGEME.calculate_null_loglikelihood')
+    st, real = ans['state'], out['state']
+    mf = None if st['file'] is None else [[k, v] for k, v in st['file']]
+    rf = None if real['file'] is None else [[k, f2b(v)] for k, v in real['file']]
+    if mf != rf:
+        res.diverge('content of the iterations file at the end of the session vs Estimate.frun', case,
+                    None if mf is None else [[k, b2f(v)] for k, v in mf], real['file'], where='BIOGEME._load_saved_iteration / save_iterations')
+    mb = None if st['best'] is None else b2f(st['best'])
+    if (mb is None) != (real['best'] is None) or (mb is not None and not core.close(mb, real['best'], 1e-11)):
+        res.diverge('bestIteration at the end of the session vs Estimate.frun', case, mb, real['best'], where='BIOGEME._load_saved_iteration / save_iterations')
+    mn = None if st['nullLL'] is None else b2f(st['nullLL'])
+    if (mn is None) != (real['nullLL'] is None) or (mn is not None and not core.close(mn, real['nullLL'], 1e-12)):
+        res.diverge('nullLogLike of the object at the end of the session vs Estimate.nullLogLike', case, mn, real['nullLL'], where='BIOGEME.calculate_null_loglikelihood')
+    if st['save'] != real['save']:
+        res.diverge('save_iterations at the end of the session', case, st['save'], real['save'], where=W)
+
+
+
+# --------------------------------------------------------------------------- estimate_catalog
+#
+# A secondary entry point that returns results objects: one per configuration of the Catalogs in the formula.
+# The statement quantifies over "every estimable model": each of them is held against the plain model of its
+# configuration, built independently (no Catalog) from the same abstract case.
+
+
+def build_catalog(problem, x0, bounds, tag, choice=None):
+    """choice None: one object whose formula contains the Catalogs; else the plain model of that configuration"""
+    import pandas as pd
+    import biogeme.biogeme as bio
+    import biogeme.database as db
+    from biogeme import models
+    from biogeme.catalog import Catalog
+    from biogeme.expressions import Beta, Variable, Numeric, NamedExpression
+
+    K = problem['K']
+    df = pd.DataFrame(problem['rows'], columns=[f'X{k}' for k in range(K)] + ['Y'], dtype=float)
+    d = db.Database(f'dc{problem["id"]}', df)
+    names = problem['names']
+    betas = {n: Beta(n, x0[n], bounds[n][0], bounds[n][1], 0) for n in names}
+    last = K - 1
+    spec = {'with': betas[names[last]] * Variable(f'X{last}'), 'without': Numeric(0)}
+    shape = {'lin': betas[names[0]] * Variable('X0'), 'half': betas[names[0]] * (0.5 * Variable('X0'))}
+    two = K >= 3
+    if choice is None:
+        t_last = Catalog('spec', [NamedExpression(k, e) for k, e in spec.items()])
+        t_first = Catalog('shape', [NamedExpression(k, e) for k, e in shape.items()]) if two else shape['lin']
+    else:
+        t_last = spec[choice['spec']]
+        t_first = shape[choice['shape']] if two else shape['lin']
+    v = t_first
+    for k in range(1, last):
+        v = v + betas[names[k]] * Variable(f'X{k}')
+    v = v + t_last
+    if problem['fixed']:
+        v = v + Beta(problem['fixed']['name'], problem['fixed']['value'], None, None, 1)
+    Y = Variable('Y')
+    if problem['family'] == 'linreg':
+        ll = -((Y - v) ** 2) / 2
+    elif problem['family'] == 'binlogit':
+        ll = models.loglogit({1: v, 0: 0}, None, Y)
+    else:
+        ll = models.loglogit({1: v, 2: 0.5 * v, 3: 0}, None, Y)
+    B = bio.BIOGEME(d, ll)
+    B.modelName = tag
+    return B, betas
+
+
+def run_catalog(case, tag):
+    """real `estimate_catalog`; every results object with the reference values of the plain model of its configuration"""
+    problem, x0, bounds = case['problem'], case['x0'], case['bounds']
+    out = {'configs': []}
+    toml = TOML.replace('[Estimation]', f'[Estimation]\noptimization_algorithm = "{case["algo"]}"') + f'[SimpleBounds]\nmax_iterations = {case["max_iterations"]}\n'
+    with core.scratch(toml):
+        try:
+            B, betas = build_catalog(problem, x0, bounds, tag)
+            snap = lambda: [{'name': n, 'value': float(b.initValue), 'fixed': False} for n, b in betas.items()]  # noqa: E731
+            with OptRecorder(snapshot=snap) as rec:
+                results = B.estimate_catalog(quick_estimate=case['quick'], run_bootstrap=False)
+        except Exception as e:  # noqa: BLE001
+            out['exc'] = f'{type(e).__name__}: {e}'
+            return out
+        out['n_calls'] = len(rec.calls)
+        out['after'] = snap()
+        for k, (cid, r) in enumerate(results.items()):
+            rd = read_report(r)
+            choice = dict(part.split(':') for part in cid.split(';'))
+            call = rec.calls[k] if k < len(rec.calls) else None
+            R, _ = build_catalog(problem, x0, bounds, f'{tag}_r{k}', choice)
+            cfgd = {'id': cid, 'choice': choice, 'report': rd, 'call': call, 'ref_names': list(R.id_manager.free_betas.names), 'refs': {}}
+            if cfgd['ref_names'] == rd['names'] and call is not None and len(call['x0']) == len(rd['names']):
+                for key, x in (('start', call['x0']), ('xstar', rd['x'])):
+                    ev = R.calculate_likelihood_and_derivatives(np.array(x), scaled=False, hessian=True, bhhh=True)
+                    cfgd['refs'][key] = {'x': [float(v) for v in x], 'L': float(ev.function), 'g': [float(v) for v in ev.gradient],
+                                         'H': np.asarray(ev.hessian, dtype=float).tolist(), 'bhhh': np.asarray(ev.bhhh, dtype=float).tolist()}
+            out['configs'].append(cfgd)
+    return out
+
+
+def expected_configs(problem):
+    if problem['K'] >= 3:
+        return sorted(f'shape:{a};spec:{b}' for a in ('lin', 'half') for b in ('with', 'without'))
+    return sorted(f'spec:{b}' for b in ('with', 'without'))
+
+
+def oracle_catalog(case, out):
+    W = 'BIOGEME.estimate_catalog'
+    if 'exc' in out:
+        return [(f'estimate_catalog raised {out["exc"]}', out['exc'], 'results', W)]
+    bad = []
+    got = sorted(';'.join(f'{k}:{v}' for k, v in sorted(c['choice'].items())) for c in out['configs'])
+    if got != expected_configs(case['problem']):
+        bad.append(('estimate_catalog does not return one results object per configuration', got, expected_configs(case['problem']), W))
+        return bad
+    aware = case['algo'] in BOUND_AWARE
+    for c in out['configs']:
+        rd, who = c['report'], f'configuration {c["id"]}'
+        if c['ref_names'] != rd['names'] or not c['refs']:
+            bad.append((f'{who}: the parameters of the results are not the free parameters of that configuration', rd['names'], c['ref_names'], W))
+            continue
+        ref, st = c['refs']['xstar'], c['refs']['start']
+        for x, n in zip(rd['x'], rd['names']):
+            lb, ub = case['bounds'][n]
+            if aware and ((lb is not None and x < lb - 1e-10) or (ub is not None and x > ub + 1e-10)):
+                bad.append((f'{who}: estimate of {n} violates its bounds with a bound-aware algorithm', x, [lb, ub], W))
+        if not core.close(rd['logLike'], ref['L'], 1e-11):
+            bad.append((f'{who}: reported log likelihood differs from the likelihood of that configuration recomputed at the estimates', rd['logLike'], ref['L'], W))
+        if not rd['logLike'] >= st['L'] - 1e-9 * max(1.0, abs(st['L'])):
+            bad.append((f'{who}: final log likelihood lower than the one at the values the estimation started from', rd['logLike'], st['L'], W))
+        if not case['quick'] or rd['g'] is not None:
+            # (whether derivatives are present follows quick_estimate: decided against the model, not a clause of the statement)
+            if rd['initLogLike'] is None or not core.close(rd['initLogLike'], st['L'], 1e-11):
+                bad.append((f'{who}: initial log likelihood is not the likelihood at the values the estimation started from', rd['initLogLike'], st['L'], W))
+            for key, name in (('g', 'gradient'), ('H', 'Hessian'), ('bhhh', 'BHHH')):
+                if rd[key] is None or not close_vec(rd[key], ref[key]):
+                    bad.append((f'{who}: reported {name} is not the {name} of the likelihood of that configuration at the estimates', rd[key], ref[key], W))
+    if not case['quick'] and out['configs']:
+        last = out['configs'][-1]['report']
+        est = dict(zip(last['names'], last['x']))
+        for p in out['after']:
+            if p['name'] in est and not same_value(p['value'], est[p['name']]):
+                bad.append((f'starting value of {p["name"]} after estimate_catalog is not its estimate in the last configuration estimated', p['value'], est[p['name']], 'BIOGEME.estimate (write-back)'))
+    return bad
+
+
+def catalog_request(case, out):
+    cfgs = []
+    for c in out['configs']:
+        rd, call = c['report'], c['call']
+        rows = []
+        for key in ('start', 'xstar'):
+            r = c['refs'][key]
+            if not any(row['x'] == [f2b(v) for v in r['x']] for row in rows):
+                rows.append({'x': [f2b(v) for v in r['x']], 'f': f2b(r['L']), 'g': [f2b(v) for v in r['g']], 'h': [[f2b(v) for v in q] for q in r['H']],
+                             'bhhh': [[f2b(v) for v in q] for q in r['bhhh']]})
+        cfgs.append({'id': c['id'], 'names': rd['names'], 'params': [{'name': p['name'], 'value': f2b(p['value']), 'fixed': p['fixed']} for p in call['params_at_call']],
+                     'idValues': [f2b(v) for v in call['x0']], 'bounds': [[None if b is None else f2b(float(b)) for b in case['bounds'][n]] for n in rd['names']],
+                     'evals': rows, 'opt': [{'tag': 0, 'x0': [f2b(v) for v in call['x0']], 'xstar': [f2b(v) for v in call['xstar']], 'converged': call['converged']}]})
+    return {'op': 'catalog', 'quick': case['quick'], 'configs': cfgs}
+
+
+def compare_catalog(res, case, out, ans):
+    W = 'BIOGEME.estimate_catalog'
+    if 'error' in ans:
+        res.diverge('driver error (catalog)', case, ans['error'], None, where=W)
+        return
+    if [r['id'] for r in ans['results']] != [c['id'] for c in out['configs']]:
+        res.diverge('configurations of the results vs Estimate.estimateCatalog', case, [r['id'] for r in ans['results']], [c['id'] for c in out['configs']], where=W)
+        return
+    for m0, c in zip(ans['results'], out['configs']):
+        m, rd = m0['report'], c['report']
+        if m['full'] == case['quick']:
+            res.diverge(f'configuration {c["id"]}: with derivatives or not', case, m['full'], not case['quick'], where=W)
+        if m['x'] != [f2b(v) for v in rd['x']] or not core.close(b2f(m['logLike']), rd['logLike'], 1e-11):
+            res.diverge(f'configuration {c["id"]}: estimates / logLike vs Estimate.estimateCatalog', case, [[b2f(v) for v in m['x']], b2f(m['logLike'])], [rd['x'], rd['logLike']], where=W)
+        mi = None if m['initLogLike'] is None else b2f(m['initLogLike'])
+        if (mi is None) != (rd['initLogLike'] is None) or (mi is not None and not core.close(mi, rd['initLogLike'], 1e-11)):
+            res.diverge(f'configuration {c["id"]}: initLogLike vs Estimate.estimateCatalog', case, mi, rd['initLogLike'], where=W)
+        for key, mk in (('g', 'g'), ('H', 'h'), ('bhhh', 'bhhh')):
+            mv = m[mk]
+            if (mv is None) != (rd[key] is None):
+                res.diverge(f'configuration {c["id"]}: {key} present', case, mv is not None, rd[key] is not None, where=W)
+            elif mv is not None:
+                mf = [b2f(v) for v in mv] if key == 'g' else [[b2f(v) for v in row] for row in mv]
+                if not close_vec(mf, rd[key]):
+                    res.diverge(f'configuration {c["id"]}: {key} vs Estimate.estimateCatalog', case, mf, rd[key], where=W)
+
+
+def check_catalog(ctx, res, rng, problem, configs, algo, tagc):
+    if problem['K'] < 2:
+        return
+    tagc[0] += 1
+    # a configuration drops the last parameter: with two parameters and one pinned nothing would be left to estimate
+    bname = rng.choice([b for b in configs.keys() if b != 'equal' or problem['K'] >= 3])
+    bounds = configs[bname]
+    case = {'kind': 'catalog', 'problem': problem, 'x0': start_point(rng, problem, bounds, rng.choice(['zero', 'rand'])), 'bounds': bounds, 'bcfg': bname,
+            'algo': algo, 'quick': rng.random() < 0.35, 'max_iterations': rng.choice([1000, 1000, 2])}
+    try:
+        out = run_catalog(case, f'c07_cat{tagc[0]}')
+        res.count({'catalog': True, 'problem': problem['id'], 'family': problem['family'], 'K': problem['K'], 'algo': algo, 'bounds': bname, 'x0': case['x0'],
+                   'quick': case['quick'], 'max_iterations': case['max_iterations']}, nontrivial=True)
+        res.tally('estimate_catalog')
+        res.tally('estimate_catalog_quick' if case['quick'] else 'estimate_catalog_full')
+        res.tally(f'estimate_catalog_configurations={len(out.get("configs", []))}')
+        bad = oracle_catalog(case, out)
+        for what, obs, exp, where in bad[:3]:
+            res.violate(what, slim(case), obs, exp, where=where)
+        if 'exc' in out or bad:
+            return
+
+        def cb(ans, case=case, out=out):
+            try:
+                compare_catalog(res, slim(case), out, ans)
+            except Exception as e:  # noqa: BLE001
+                res.diverge(f'compare_catalog: the real output could not be interpreted ({type(e).__name__}: {e})', slim(case), 'comparable output', str(e), where='harness')
+
+        ctx.batch.add(catalog_request(case, out), cb)
+    except Exception as e:  # noqa: BLE001
+        res.count({'harness_error': str(e)}, nontrivial=False)
+        res.violate(f'estimate_catalog could not be evaluated: {type(e).__name__}: {e}', slim(case), str(e), 'results that can be read', where='harness')
+
+
 def session_nontrivial(case):
     return len(case['ops']) >= 1
 
@@ -1276,7 +1929,15 @@ def check_session(ctx, res, case, tagc):
             res.violate(what, slim(case), obs, exp, where=where)
         if 'exc' in out:
             return
-        req = session_request(case, out)
+        flow = bool(case.get('flow'))
+        if flow:
+            res.tally('session_flow')
+            res.tally('session_flow_save_on' if case.get('save') else 'session_flow_save_off')
+            if case.get('file0') is not None:
+                res.tally('session_flow_saved_iteration_present')
+            if any(st.get('file') is not None and st['op']['op'] == 'estimate' for st in out['steps']):
+                res.tally('session_flow_file_written_by_estimate')
+        req = flow_request(case, out) if flow else session_request(case, out)
         if req is None:
             res.tally('session_optimiser_not_a_function_of_its_start (model comparison skipped)')
             return
@@ -1284,7 +1945,7 @@ def check_session(ctx, res, case, tagc):
 
         def cb(ans, case=case, out=out):
             try:
-                compare_session(res, slim(case), out, ans)
+                (compare_flow if case.get('flow') else compare_session)(res, slim(case), out, ans)
             except Exception as e:  # noqa: BLE001
                 res.diverge(f'compare_session: the real output could not be interpreted ({type(e).__name__}: {e})', slim(case), 'comparable output', str(e), where='harness')
 
@@ -1316,6 +1977,13 @@ def run_sessions(ctx, res, rng, problem, configs, tagc, algos, n):
         check_session(ctx, res, case, tagc)
         if len(res.violations) > 6:
             return
+    # the extended object: saved iterations, null log likelihood, random starting values
+    for i in range(3 if ctx.quick else 6):
+        case = gen_flow_session(rng, problem, configs, algos[tagc[1] % len(algos)])
+        tagc[1] += 1
+        check_session(ctx, res, case, tagc)
+        if len(res.violations) > 6:
+            return
 
 
 # minimised past failures of the check itself; they run first
@@ -1327,6 +1995,31 @@ CORPUS = [
 ]
 
 
+def corpus_flow():
+    """fixed sessions of the extended object, independent of the seed: a saved iteration naming only some of the
+    parameters, two estimations with saving on (the second starts from the file the first wrote), an evaluation with
+    derivatives in between (it rewrites the file when it is at least as good), quick_estimate, the file removed"""
+    import random
+
+    rng = random.Random(20260930)
+    cases = []
+    for k, algo in enumerate(['simple_bounds', 'scipy', 'TR-BFGS']):
+        problem = gen_problem(rng, f'corpus-flow{k}')
+        while problem['K'] < 2:
+            problem = gen_problem(rng, f'corpus-flow{k}')
+        names = problem['names']
+        bounds = {n: (None, None) for n in names}
+        bounds[names[0]] = (-3.0, 3.0)
+        pt = {n: 0.25 * (i + 1) for i, n in enumerate(names)}
+        cases.append({'kind': 'session', 'flow': True, 'problem': problem, 'x0': {n: 0.0 for n in names}, 'bounds': bounds, 'bcfg': 'corpus', 'algo': algo,
+                      'cfg': dict(CFG_DEFAULT, max_iterations=[1000, 1000, 2][k]), 'boot': [0, 2, 0][k], 'save': True, 'file0': [[names[-1], 0.5]],
+                      'ops': [{'op': 'eval', 'at': 'estimates', 'scaled': False, 'hessian': False, 'bhhh': False}, {'op': 'eval', 'at': pt, 'scaled': True, 'hessian': True, 'bhhh': True},
+                              {'op': 'estimate', 'boot': 0}, {'op': 'quick'}, {'op': 'change', 'vals': {names[0]: 0.0}}, {'op': 'estimate', 'boot': 0},
+                              {'op': 'removeFile'}, {'op': 'setSave', 'value': k == 0}, {'op': 'estimate', 'boot': 0}],
+                      'np_seed': 7 + k})
+    return cases
+
+
 def run_problem(ctx, res, rng, problem, tagc, algos, bcfgs, n_quick):
     try:
         ref = reference_optimum(problem)
@@ -1336,6 +2029,10 @@ def run_problem(ctx, res, rng, problem, tagc, algos, bcfgs, n_quick):
                 'algo': 'simple_bounds', 'cfg': dict(CFG_DEFAULT), 'quick': True}
         res.count({'reference': problem['id']}, nontrivial=False)
         res.violate(f'estimation raised {type(e).__name__}: {e}', slim(case), f'{type(e).__name__}: {e}', 'results', where='BIOGEME.quick_estimate')
+        return None
+    if not estimable(ref):
+        res.count({'reference': problem['id'], 'not_estimable': True}, nontrivial=False)
+        res.tally('problem_without_finite_maximum_skipped')
         return None
     configs = bound_configs(rng, problem, ref)
     cfg = gen_cfg(rng)
@@ -1356,16 +2053,17 @@ def run_problem(ctx, res, rng, problem, tagc, algos, bcfgs, n_quick):
         check_pairs(ctx, res, group)
     # runs that stop before convergence (max_iterations 1 or 2 from a poor start): results are returned,
     # the contract holds, and the property's last sentence (write-back) has no convergence condition
-    bname = rng.choice(['none', 'inactive'])
+    bname = rng.choice(['none', 'inactive', 'active', 'zero', 'equal', 'onesided'])
     bounds = configs[bname]
     far = {}
     for n in problem['names']:
         lb, ub = bounds[n]
         v = ref[n] + rng.choice([-1, 1]) * rng.choice([2.5, 3.0, 4.0])
+        margin = 0.5 if lb is None or ub is None else min(0.5, (ub - lb) / 4)
         if lb is not None:
-            v = max(v, lb + 0.5)
+            v = max(v, lb + margin)
         if ub is not None:
-            v = min(v, ub - 0.5)
+            v = min(v, ub - margin)
         far[n] = float(v)
     cfg_short = dict(cfg)
     cfg_short['max_iterations'] = rng.choice([1, 2])
@@ -1376,6 +2074,12 @@ def run_problem(ctx, res, rng, problem, tagc, algos, bcfgs, n_quick):
         o = check_one(ctx, res, case, tagc[0], group)
         if 'exc' not in o and not o['converged']:
             res.tally('short_run_not_converged')
+    for algo in rng.sample([a for a in algos if a != 'scipy'], 2):
+        tagc[0] += 1
+        case = {'kind': 'run', 'problem': problem, 'x0': far, 'bounds': bounds, 'bcfg': bname + '+short', 'algo': algo, 'cfg': cfg_short, 'quick': True}
+        o = check_one(ctx, res, case, tagc[0], group)
+        if 'exc' not in o and not o['converged']:
+            res.tally('short_quick_run_not_converged')
     check_pairs(ctx, res, group)
     return configs
 
@@ -1392,19 +2096,24 @@ def check(ctx) -> Result:
     with core.scratch(TOML):
         for c in CORPUS:
             check_session(ctx, res, _case_from_json(copy.deepcopy(c)), tagc)
-        n_prob = ctx.n(8, 130)
+        for c in corpus_flow():
+            check_session(ctx, res, c, tagc)
+        n_prob = ctx.n(8, 95)
         for pid in range(n_prob):
             problem = gen_problem(rng, pid)
             if ctx.quick:
-                bcfgs = ['none', 'active', 'zero'] if pid % 2 == 0 else ['inactive', 'onesided', 'zero']
+                bcfgs = ['none', 'active', 'zero'] if pid % 2 == 0 else ['inactive', 'onesided', 'equal']
             else:
-                bcfgs = ['none', 'inactive', 'active', 'onesided', 'zero']
+                bcfgs = ['none', 'inactive', 'active', 'onesided', 'zero', 'equal']
             configs = run_problem(ctx, res, rng, problem, tagc, names, bcfgs, n_quick=2 if ctx.quick else 3)
             if len(res.violations) > 6:
                 break
             # sequences of operations on one object (every algorithm name in turn)
             if configs is not None:
                 run_sessions(ctx, res, rng, problem, configs, tagc, names, n=6)
+                for _ in range(2 if ctx.quick else 3):
+                    check_catalog(ctx, res, rng, problem, configs, names[tagc[1] % len(names)], tagc)
+                    tagc[1] += 1
             if len(res.violations) > 6:
                 break
         # an unknown algorithm name is refused by the library (decision table: plumb = none)
@@ -1431,6 +2140,13 @@ def check(ctx) -> Result:
                            'steptol': f2b(cfg['steptol']), 'max_iterations': cfg['max_iterations'], 'infeasible_cg': cfg['infeasible_cg'],
                            'initial_radius': f2b(cfg['initial_radius']), 'enlarging_factor': f2b(cfg['enlarging_factor']), 'dogleg': cfg['dogleg'], 'complex': False}, cb_bad)
     ctx.batch.flush()
+    import os
+
+    if os.environ.get('VERIF_C07_DUMP'):   # builder's aid: the divergences are otherwise only counted when a violation exists
+        import json
+
+        with open(os.environ['VERIF_C07_DUMP'], 'w') as fp:
+            json.dump([{k: (str(v)[:1500] if k != 'what' else v) for k, v in d.items()} for d in res.divergences], fp, indent=1)
     return res
 
 
@@ -1442,6 +2158,8 @@ def search(ctx, res, broken):
         for pid in range(25):
             problem = gen_problem(rng, 5000 + pid)
             ref = reference_optimum(problem)
+            if not estimable(ref):
+                continue
             configs = bound_configs(rng, problem, ref)
             for bname, bounds in configs.items():
                 x0 = start_point(rng, problem, bounds, 'rand')
@@ -1465,6 +2183,24 @@ def search(ctx, res, broken):
                 tag += 1
                 case = gen_session(rng, problem, configs, algo, scenario={0: 'restart', 1: 'inspect'}.get(k % 4))
                 bad = oracle_session(case, run_session(case, f'c07ss_{tag}'))
+                if bad:
+                    what, obs, exp, where = bad[0]
+                    res.violate(what, slim(case), obs, exp, where=where)
+                    return
+            for k in range(4):
+                tag += 1
+                case = gen_flow_session(rng, problem, configs, rng.choice(ALGOS))
+                bad = oracle_session(case, run_session(case, f'c07sf_{tag}'))
+                if bad:
+                    what, obs, exp, where = bad[0]
+                    res.violate(what, slim(case), obs, exp, where=where)
+                    return
+            if problem['K'] >= 2:
+                tag += 1
+                bname = rng.choice([b for b in configs.keys() if b != 'equal' or problem['K'] >= 3])
+                case = {'kind': 'catalog', 'problem': problem, 'x0': start_point(rng, problem, configs[bname], 'rand'), 'bounds': configs[bname], 'bcfg': bname,
+                        'algo': rng.choice(ALGOS), 'quick': rng.random() < 0.35, 'max_iterations': rng.choice([1000, 2])}
+                bad = oracle_catalog(case, run_catalog(case, f'c07sc_{tag}'))
                 if bad:
                     what, obs, exp, where = bad[0]
                     res.violate(what, slim(case), obs, exp, where=where)
@@ -1494,6 +2230,11 @@ def replay(ctx, obj):
             out.update({'property_fails': bool(bad), 'failures': [[b[0], str(b[1])[:300], str(b[2])[:300]] for b in bad[:5]],
                         'observed': {'exc': o.get('exc'), 'reports': [{'made_by': r['made_by'], 'step': r['step'], 'first_read': r['reads'][0] if r['reads'] else None,
                                                                     'last_read': r['reads'][-1] if r['reads'] else None} for r in o.get('reports', [])]}})
+        elif case.get('kind') == 'catalog':
+            c = _case_from_json(case)
+            o = run_catalog(c, 'c07_replay_c')
+            bad = oracle_catalog(c, o)
+            out.update({'property_fails': bool(bad), 'failures': [[b[0], str(b[1])[:300], str(b[2])[:300]] for b in bad[:5]]})
         elif case.get('kind') == 'pair':
             runs = []
             for key in ('a', 'b'):
